@@ -20,6 +20,9 @@ fn main() {
     if id == "conformance" {
         std::process::exit(verif_harness::conformance::run());
     }
+    if id == "conformance-pauses" {
+        std::process::exit(verif_harness::conformance::run_pauses());
+    }
     if id == "list" {
         for c in props::all() {
             println!("{} {}", c.id(), c.level());
